@@ -134,11 +134,25 @@ func (g *guest) get(off, n uint32) []byte {
 func (g *guest) u32(off uint32) uint32 { v, _ := g.mem.ReadUint32Le(off); return v }
 func (g *guest) u64(off uint32) uint64 { v, _ := g.mem.ReadUint64Le(off); return v }
 
-func (g *guest) setIov(ptr, n uint32) {
-	var b [8]byte
+// setIov describes the n bytes at ptr as one iovec (n < 2) or as three: the first half, an empty one, the rest.
+// Returns the iovec count.
+func (g *guest) setIov(ptr, n uint32) uint64 {
+	var b [24]byte
+	if n < 2 {
+		binary.LittleEndian.PutUint32(b[:], ptr)
+		binary.LittleEndian.PutUint32(b[4:], n)
+		g.put(mIov, b[:8])
+		return 1
+	}
+	h := n / 2
 	binary.LittleEndian.PutUint32(b[:], ptr)
-	binary.LittleEndian.PutUint32(b[4:], n)
+	binary.LittleEndian.PutUint32(b[4:], h)
+	binary.LittleEndian.PutUint32(b[8:], ptr+h)
+	binary.LittleEndian.PutUint32(b[12:], 0)
+	binary.LittleEndian.PutUint32(b[16:], ptr+h)
+	binary.LittleEndian.PutUint32(b[20:], n-h)
 	g.put(mIov, b[:])
+	return 3
 }
 
 type openArgs struct {
@@ -192,9 +206,9 @@ func (g *guest) fdRenumber(a, b int32) string {
 }
 
 func (g *guest) fdRead(fd int32, n uint32) (string, []byte) {
-	g.setIov(mBuf, n)
+	nio := g.setIov(mBuf, n)
 	g.put(mRes, []byte{0xee, 0xee, 0xee, 0xee})
-	e := g.call(wasip1.FdReadName, uint64(uint32(fd)), mIov, 1, mRes)
+	e := g.call(wasip1.FdReadName, uint64(uint32(fd)), mIov, nio, mRes)
 	if e != "ESUCCESS" {
 		return e, nil
 	}
@@ -206,9 +220,9 @@ func (g *guest) fdRead(fd int32, n uint32) (string, []byte) {
 }
 
 func (g *guest) fdPread(fd int32, n uint32, off uint64) (string, []byte) {
-	g.setIov(mBuf, n)
+	nio := g.setIov(mBuf, n)
 	g.put(mRes, []byte{0xee, 0xee, 0xee, 0xee})
-	e := g.call(wasip1.FdPreadName, uint64(uint32(fd)), mIov, 1, off, mRes)
+	e := g.call(wasip1.FdPreadName, uint64(uint32(fd)), mIov, nio, off, mRes)
 	if e != "ESUCCESS" {
 		return e, nil
 	}
@@ -221,17 +235,17 @@ func (g *guest) fdPread(fd int32, n uint32, off uint64) (string, []byte) {
 
 func (g *guest) fdWrite(fd int32, data []byte) (string, uint32) {
 	g.put(mBuf, data)
-	g.setIov(mBuf, uint32(len(data)))
+	nio := g.setIov(mBuf, uint32(len(data)))
 	g.put(mRes, []byte{0xee, 0xee, 0xee, 0xee})
-	e := g.call(wasip1.FdWriteName, uint64(uint32(fd)), mIov, 1, mRes)
+	e := g.call(wasip1.FdWriteName, uint64(uint32(fd)), mIov, nio, mRes)
 	return e, g.u32(mRes)
 }
 
 func (g *guest) fdPwrite(fd int32, data []byte, off uint64) (string, uint32) {
 	g.put(mBuf, data)
-	g.setIov(mBuf, uint32(len(data)))
+	nio := g.setIov(mBuf, uint32(len(data)))
 	g.put(mRes, []byte{0xee, 0xee, 0xee, 0xee})
-	e := g.call(wasip1.FdPwriteName, uint64(uint32(fd)), mIov, 1, off, mRes)
+	e := g.call(wasip1.FdPwriteName, uint64(uint32(fd)), mIov, nio, off, mRes)
 	return e, g.u32(mRes)
 }
 
